@@ -79,10 +79,10 @@ Lemma add_sub_exact t d :
   exists t1, time_add_dur t d = Ok t1 /\ t1 = t + d /\ time_sub_dur t1 d = Ok t.
 Proof.
   unfold in_ptp, in_dur; unfold_consts; intros Ht Hd Hs. pv.
-  exists (t + d). unfold time_add_dur, time_sub_dur, dur_neg.
-  rewrite (chk_i_ok _ 128) by (pv; lia). cbn [obind]. unfold time_add_dur.
+  exists (t + d). unfold time_sub_dur, dur_neg.
+  rewrite (chk_i_ok _ 128) by (pv; lia). cbn [obind]. unfold time_add_dur, TIME_MAX. pv.
   destruct (d <? 0) eqn:E1; destruct (- d <? 0) eqn:E2; try lia;
-    repeat rewrite (chk_u_ok _ 128) by (pv; lia); repeat split; f_equal; lia.
+    repeat split; f_equal; lia.
 Qed.
 
 Lemma sub_add_exact t d :
@@ -91,9 +91,18 @@ Lemma sub_add_exact t d :
 Proof.
   unfold in_ptp, in_dur; unfold_consts; intros Ht Hd Hs. pv.
   exists (t - d). unfold time_sub_dur, dur_neg.
-  rewrite (chk_i_ok _ 128) by (pv; lia). cbn [obind]. unfold time_add_dur.
+  rewrite (chk_i_ok _ 128) by (pv; lia). cbn [obind]. unfold time_add_dur, TIME_MAX. pv.
   destruct (d <? 0) eqn:E1; destruct (- d <? 0) eqn:E2; try lia;
-    repeat rewrite (chk_u_ok _ 128) by (pv; lia); repeat split; f_equal; lia.
+    repeat split; f_equal; lia.
+Qed.
+
+(** Time +/- Duration never fails and never leaves the representable range
+    (saturation instead of wrap-around). *)
+Lemma time_add_dur_total t d :
+  time_ok t = true -> exists r, time_add_dur t d = Ok r /\ time_ok r = true.
+Proof.
+  unfold time_ok. rewrite in_u_true. intros Ht. unfold time_add_dur, TIME_MAX.
+  destruct (d <? 0); eexists; (split; [reflexivity|]); rewrite in_u_true; pv; lia.
 Qed.
 
 (** 3. difference of two times *)
@@ -205,14 +214,25 @@ Proof.
   - destruct (in_u 48 s && (0 <=? n) && (n <? NS_PER_S)) eqn:Hp; [|reflexivity].
     apply andb_true_iff in Hp as [Hp Hc]; apply andb_true_iff in Hp as [Ha Hb].
     cbn [run_top]. rewrite from_wire_exact by (assumption || lia). cbn [obind to_opt]. lia.
-  - destruct (in_ptp t && in_dur d && (0 <=? t + d)) eqn:Hp; [|reflexivity].
-    apply andb_true_iff in Hp as [Hp Hc]; apply andb_true_iff in Hp as [Ha Hb].
-    destruct (add_sub_exact t d Ha Hb ltac:(lia)) as (t1 & H1 & H2 & H3).
-    cbn [run_top]. rewrite H1. cbn [obind]. rewrite H3. cbn [obind to_opt]. lia.
-  - destruct (in_ptp t && in_dur d && (0 <=? t - d)) eqn:Hp; [|reflexivity].
-    apply andb_true_iff in Hp as [Hp Hc]; apply andb_true_iff in Hp as [Ha Hb].
-    destruct (sub_add_exact t d Ha Hb ltac:(lia)) as (t1 & H1 & H2 & H3).
-    cbn [run_top]. rewrite H1. cbn [obind]. rewrite H3. cbn [obind to_opt]. lia.
+  - destruct (in_ptp t && in_dur d) eqn:Hp; [|reflexivity].
+    apply andb_true_iff in Hp as [Ha Hb].
+    destruct (0 <=? t + d) eqn:Hc.
+    + destruct (add_sub_exact t d Ha Hb ltac:(lia)) as (t1 & H1 & H2 & H3).
+      cbn [run_top]. rewrite H1. cbn [obind]. rewrite H3. cbn [obind to_opt]. lia.
+    + cbn [run_top]. unfold time_add_dur at 1.
+      assert (Hd : d <? 0 = true) by (unfold in_ptp in Ha; lia). rewrite Hd. cbn [obind].
+      unfold in_ptp, in_dur in *. unfold_consts. pv.
+      unfold time_sub_dur, dur_neg. rewrite (chk_i_ok _ 128) by (pv; lia). cbn [obind].
+      unfold time_add_dur. destruct (- d <? 0); cbn [obind to_opt]; lia.
+  - destruct (in_ptp t && in_dur d) eqn:Hp; [|reflexivity].
+    apply andb_true_iff in Hp as [Ha Hb].
+    destruct (0 <=? t - d) eqn:Hc.
+    + destruct (sub_add_exact t d Ha Hb ltac:(lia)) as (t1 & H1 & H2 & H3).
+      cbn [run_top]. rewrite H1. cbn [obind]. rewrite H3. cbn [obind to_opt]. lia.
+    + cbn [run_top]. unfold in_ptp, in_dur in *. unfold_consts. pv.
+      unfold time_sub_dur at 1, dur_neg. rewrite (chk_i_ok _ 128) by (pv; lia). cbn [obind].
+      unfold time_add_dur at 1. assert (Hd : - d <? 0 = true) by lia. rewrite Hd. cbn [obind].
+      unfold time_add_dur. destruct (d <? 0); cbn [obind to_opt]; lia.
   - destruct (in_ptp a && in_ptp b) eqn:Hp; [|reflexivity].
     apply andb_true_iff in Hp as [Ha Hb].
     cbn [run_top]. rewrite diff_exact by assumption. cbn [obind to_opt]. lia.
